@@ -56,8 +56,8 @@ func NewCloudWatch(key string, matcher matcher.Matcher, awsProfile, awsRegion, a
 	if bufSize < 0 {
 		return nil, fmt.Errorf("cloudWatch(%s): bufSize can not be negative", key)
 	}
-	if flushMaxWait <= 0 {
-		return nil, fmt.Errorf("cloudWatch(%s): flushMaxWait must be > 0", key)
+	if flushMaxWait <= 0 || int64(flushMaxWait) > maxFlushMaxWait {
+		return nil, fmt.Errorf("cloudWatch(%s): flushMaxWait must be > 0 and at most %d", key, maxFlushMaxWait)
 	}
 
 	r := &CloudWatch{
